@@ -113,7 +113,7 @@ def check_path(path, s, goalset, w, objective, lab_inv):
     return None
 
 
-LABELS = [None, ["a", "b", "c", "d"], [("p", 0), ("p", 1), ("q", 0), ("q", 1)], [None, 0, "", (2,)], [1000, "node-b", (1, (2, 3)), 2.5]]  # falsy / None labels; big int, long string, nested tuple
+LABELS = [None, ["a", "b", "c", "d"], [("p", 0), ("p", 1), ("q", 0), ("q", 1)], [None, 0, "", (2,)], [1000, "node-b", (1, (2, 3)), 2.5], [-1, -2, ("p", -1), ("p", -2)]]  # falsy / None labels; big int, long string, nested tuple
 
 
 def _run_nonneg(r, n, arcs, full):
